@@ -206,6 +206,20 @@ def lattice_c05(ctx):
         why = _judge(vals, ub, 'poly_relaxation of %s' % name, groups, chains)
         if why:
             return why, nsolves
+    # a constraint with a cross term of even total degree but odd exponents (1 - x0 x1 >= 0) is NOT sign-symmetric: it must not be
+    # absorbed into the PolyDomain; the minimum of x0 x1 over the feasible set is -4 at (2, -2)
+    pc = x2[0] * x2[1]
+    gc = [1 - x2[0] * x2[1], 4 - x2[0] ** 2, 4 - x2[1] ** 2]
+    Xc = sp.infer_domain(pc, gc, [])
+    vals = {}
+    for form in ('primal', 'dual'):
+        vals[(form, 'poly_relaxation over X')] = _solve(lambda: sp.poly_relaxation(pc, X=Xc, form=form))
+        vals[(form, 'poly_constrained_relaxation over X')] = _solve(lambda: sp.poly_constrained_relaxation(pc, gc, [], Xc, form=form))
+        vals[(form, 'poly_constrained_relaxation')] = _solve(lambda: sp.poly_constrained_relaxation(pc, gc, [], form=form))
+        nsolves += 3
+    why = _judge(vals, -4.0, 'min x0 x1 s.t. 1 - x0 x1 >= 0, |x0| <= 2, |x1| <= 2', [], [])
+    if why:
+        return why, nsolves
     # constrained, both reflections (the minimiser lies in different orthants)
     for sg in (1.0, -1.0):
         for name, p, gts, pts, levels in (
